@@ -44,6 +44,27 @@ add("C05", "NgSearch.tla models nogood_internal with a nondeterministic heuristi
     SEM_NOTE + " Termination on the code side is a 20 s wall-clock budget per call plus a heuristic-call budget of 4*3^n+16.",
     "TLA+ state machine of the learning loop model-checked (safety + liveness); exhaustive choice-tree replay on the real code; TLC trace validation", "6/C05")
 
+BDD_NOTE = ("Trusted: TLC evaluating spec/RobddOps.tla; hook H1 (Bdd::verif_dump, read-only) exporting the real memo tables; the harness "
+            "logging the real node table after each operation (--selftest: a corrupted result handle is rejected at exactly that record). "
+            "Bounded: the two-variable state graph is closed (any history of any length); three variables up to 9 nodes; on the code side "
+            "seeded operation sequences over 2-5 variables.")
+add("C06", "Robdd.tla is a line-by-line transcription of node/restrict/if_then_else with all memo tables; TLC closes its state graph for two "
+    "variables (2036 states, 1.26 M transitions: EVERY operation history) with Reduced/Ordered/NoDup/Canonical/UniqOK/CachesOK/DepsOK/CountsOK as "
+    "invariants. Real stores (fresh, natively compiled, bridge-imported, re-imported, rebuilt) are driven with random operations; TLC evaluates the same "
+    "invariants on every logged real node table and unique table, and steps the model from the real pre-state to predict the real post-state "
+    "(handle numbers and every memo entry; mismatch = drift, reported, not an alarm).", BDD_NOTE,
+    "TLA+ implementation-level store model, TLC exhaustive state graph + TLC trace validation of real node tables and memo tables", "6/C06")
+add("C07", "Action property StepOK (result denotes the named function of the operands; old table is a prefix of the new) is checked by TLC on every "
+    "transition of the closed two-variable graph and on every recorded operation of real stores, denotations being computed by TLC from the logged "
+    "real node table.", BDD_NOTE,
+    "TLA+ action property on the store model (all transitions) + TLC trace validation of recorded operations", "6/C07")
+add("C13", "Definitional counterparts (explicit path enumeration, |Den|, dependency by cofactor inequality, cube cover/disjointness) are evaluated by TLC "
+    "on the logged real table for every query answer (paths, models naive/memoised, depth, dependencies, both impact measures, path cubes for every goal "
+    "value and goal variable, more_models) and on the real count cache / dependency lists after every operation; CountsOK/DepsOK are invariants of the "
+    "model-checked store model.", BDD_NOTE + " Counts are machine integers; exactness is claimed for depth <= 62. Path cubes of the two constant "
+    "diagrams are DONT_CARE (the library's own test pins 'no cube').",
+    "TLA+ definitional query semantics evaluated by TLC on recorded real tables; invariants of the model-checked store model", "6/C13")
+
 def main():
     hooks = subprocess.run(["git", "-C", "/repo", "log", "--format=%H %s"], stdout=subprocess.PIPE, text=True).stdout.splitlines()
     hook_commits = [l.split()[0] for l in hooks if " verif hook" in l]
